@@ -12,7 +12,7 @@ from __future__ import annotations
 import asyncio
 
 from vf.gen import hdlc_gen, p1_gen, splits
-from vf.mon import clock, hdlc_mon, p1_mon, resync
+from vf.mon import clock, hdlc_mon, p1_mon, resync, steps
 from vf.ref import p1_ref
 
 ID = "C14"
@@ -64,6 +64,15 @@ def make_noise(rng) -> tuple[bytes, list[str]]:
                 b = long_line + b"\r\n!12\r\n"
         elif r < 0.09:
             b, k = hdlc_gen.long_run(rng)
+        elif r < 0.14:
+            # a line that starts like an identification line, goes on with a run of printable characters (line ends lost: the ident line
+            # merged with data lines) and carries one character that no identification may contain
+            head = rng.choice((b"/ISk5", b"/KMP5 ", b"/KFM5", b"/ABC9\\2", p1_ref.strict_ident(rng, with_id=False)[0]))
+            n = rng.choice((20, 30, 33, 40, 64, 120, 500, 2000))
+            cls = rng.choice((b"A", b"0", b" ", b"KA6U0016", b"1-0:1.8.0(0001.5*kWh)", bytes(range(0x20, 0x7F)).replace(b"/", b"").replace(b"!", b"")))
+            tail = bytes(cls[i % len(cls)] for i in range(n)) if rng.random() < 0.6 else bytes(rng.choice(cls) for _ in range(n))
+            b = head + tail + rng.choice((b"\x00", b"\x80", b"\x1f", b"\x7f", b"\t", b"\xf8", b"")) + rng.choice((b"\r\n", b"\n")) + rng.choice((b"", b"1-0:1.8.0(1*kWh)\r\n!\r\n"))
+            k = "long_ident_like_line"
         elif r < 0.6:
             b, k = p1_gen.noise(rng, rng.randint(1, 120))
         elif r < 0.8:
@@ -113,12 +122,19 @@ def run_reader(target, cfg, noise, suffix, sent, spec, ctx, case) -> bool:
     fed = 0
     for ch in splits.chunks(stream, spec):
         clock.tick()
+        armed = steps.arm(steps.read_budget(len(ch)))
         try:
             msgs = reader.read(ch)
+        except steps.CpuBudgetExceeded:
+            ctx.violation(f"C14:{type(reader).__name__}.read:did-not-return", f"read() of a {len(ch)}-octet chunk used more than {steps.read_budget(len(ch)):.1f} s of CPU time without returning (about 2 us per octet are normal)", case)
+            return True
         except Exception as ex:
             record(ctx, f"{type(reader).__name__}.read", ex, case)
             raised = True
             msgs = []
+        finally:
+            if armed:
+                steps.disarm()
         fed += len(ch)
         if not isinstance(msgs, list):
             ctx.violation("C14:read-returned-non-list", f"read() returned {type(msgs).__name__}", case)
@@ -166,11 +182,18 @@ def run_protocol(pclass_name, cfg, noise, suffix, sent_payloads, spec, ctx, case
     try:
         for ch in splits.chunks(noise + suffix, spec):
             clock.tick()
+            armed = steps.arm(steps.read_budget(len(ch)) * 2)
             try:
                 proto.data_received(ch)
+            except steps.CpuBudgetExceeded:
+                ctx.violation(f"C14:{pclass_name}.data_received:did-not-return", f"data_received() of a {len(ch)}-octet chunk used more than {2 * steps.read_budget(len(ch)):.1f} s of CPU time without returning", case)
+                return True
             except Exception as ex:
                 record(ctx, f"{pclass_name}.data_received", ex, case)
                 raised = True
+            finally:
+                if armed:
+                    steps.disarm()
         # the selected reader then sees a long run of complete but invalid messages, and clean ones again
         if len(noise) % 3 == 0:
             try:
